@@ -106,14 +106,25 @@ def spelled(name, no, cc, pos):
     return ' '.join(name)
 
 
+def pos_argument(pos, no):
+    """the position in the container / numeric type a caller may use: a lattice point (whole-numbered coordinates, e.g. the origin) is
+    also written [0, 0, 0] -- Python ints in a list or tuple, or an integer ndarray; the choice is a fixed function of the case"""
+    if all(float(x) == int(x) for x in pos):
+        import zlib
+        import numpy as np
+        ints = [int(x) for x in pos]
+        return [ints, tuple(ints), np.array(ints), list(map(float, pos)), np.array(pos, dtype=float)][zlib.crc32(repr((ints, no)).encode()) % 5]
+    return list(pos)
+
+
 def _py_eval(task):
     how, no, cc, name, pos = task
     from xfab import structure
     try:
         if how == 'no':
-            r = structure.multiplicity(list(pos), sgno=no, cell_choice=cc)
+            r = structure.multiplicity(pos_argument(pos, no), sgno=no, cell_choice=cc)
         else:
-            r = structure.multiplicity(list(pos), sgname=spelled(name, no, cc, pos))
+            r = structure.multiplicity(pos_argument(pos, no), sgname=spelled(name, no, cc, pos))
         return int(r)
     except Exception as e:      # noqa: the model maps these to raise:<type>
         return 'raise:' + type(e).__name__
@@ -204,6 +215,9 @@ def shifted(rng, d, num):
 
 def sample_positions(rng, ngrid, nfam, ngen, nshift):
     ps = [grid_pos(rng) for _ in range(ngrid)]
+    # always: one lattice point (the origin or a lattice shift of it) -- the position every structure file contains and the one
+    # callers write with integers (pos_argument passes it in an integer container)
+    ps.append((24, tuple(24 * rng.randint(-2, 2) for _ in range(3))) if rng.random() < 0.6 else (24, (0, 0, 0)))
     for i in range(nfam):
         ps.append(family_pos(rng, i % 3, zgrid=(i // 3) % 2 == 1))
     ps += [generic_pos(rng) for _ in range(ngen)]
